@@ -67,6 +67,14 @@ def button_scripts() -> List[dict]:
                     else:
                         src = common.script([], decls + body, prologue=PRO, defs=defs)
                     out.append({"where": where, "handler": handler, "uses": uses, "pins": pins, "src": src})
+    # two buttons, only the SECOND (alphabetically later) has a handler, and the handler reads the first one: every sample
+    # of the pass is taken before any handler runs
+    for names in (("b0", "b1"), ("arm", "fire"), ("zz", "aa")):
+        first, second = names
+        defs = ["def hit1():", '    mon.write("click1")', f'    mon.write(f"p0={{{first}.is_pressed()}}")']
+        decls = [f"{first} = Button(7)"] + defs + [f"{second} = Button(12, on_click=hit1)"]
+        body = ['mon.write("pass")', f'mon.write(f"p1={{{second}.is_pressed()}}")']
+        out.append({"where": "before", "handler": True, "handlers": [False, True], "uses": 1, "pins": [7, 12], "src": common.script(decls, body, prologue=PRO)})
     return out
 
 
@@ -82,7 +90,7 @@ def gen_button(tier: str) -> Iterator[dict]:
             for s0 in itertools.product((0, 1), repeat=half):
                 for s1 in itertools.product((0, 1), repeat=half):
                     runs.append({"passes": half - 1, "dr": {sc["pins"][0]: list(s0), sc["pins"][1]: list(s1)}})
-        yield {"id": f"B:{si}", "space": "B", "src": sc["src"], "runs": runs, "meta": {k: sc[k] for k in ("where", "handler", "uses", "pins")}}
+        yield {"id": f"B:{si}", "space": "B", "src": sc["src"], "runs": runs, "meta": {k: sc[k] for k in ("where", "handler", "uses", "pins", "handlers") if k in sc}}
 
 
 def button_monitor(case, run, dr) -> Optional[str]:
@@ -115,7 +123,8 @@ def button_monitor(case, run, dr) -> Optional[str]:
             if len(reads) != 1:
                 return f"button pin {pin}: {len(reads)} digitalRead in pass {phase} (expected exactly one)"
             sample = int(reads[0].args[1])
-            want = 1 if (meta["handler"] and sample == 1 and prev == 0) else 0
+            has_handler = meta.get("handlers", [meta["handler"]] * len(pins))[i]
+            want = 1 if (has_handler and sample == 1 and prev == 0) else 0
             if clicks != want:
                 why = "at start-up" if prev is None else ("while held" if prev == 1 and sample == 1 else "on release" if sample == 0 else "on a press")
                 return f"button pin {pin}, sampled signal {signal + [sample]}: on_click ran {clicks} times in pass {phase} ({why}), expected {want}"
@@ -132,7 +141,7 @@ def button_monitor(case, run, dr) -> Optional[str]:
                     return f"pass {phase}: second is_pressed() saw {t!r}, the pass sample is {sample}"
             prev = sample
         # the host Button driven with the same sampled signal clicks equally often when it starts released
-        if meta["handler"] and signal and signal[0] == 0:
+        if meta.get("handlers", [meta["handler"]] * len(pins))[i] and signal and signal[0] == 0:
             from Reduino.Sensors import Button
 
             count: List[int] = []
@@ -164,6 +173,9 @@ POT_BODIES = [
     ["n = 0", "for i in range(pot.read() % 4):", "    n += pot.read()", "mon.write(n)"],
     ["for i in range(min(pot.read(), 3)):", "    mon.write(pot.read())"],
     ["x = pot.read() if pot.read() > 500 else 0 - pot.read()", "mon.write(x)"],
+    ["for j in range(2):", "    nv = j", "    for i in range(pot.read() // 300):", "        mon.write(i)"],
+    ["k = 0", "while k < 2:", "    k += 1", "    nw = k", "    for i in range(pot.read() % 4):", "        mon.write(pot.read())"],
+    ["try:", "    nt = 1", "    for i in range(pot.read() // 300):", "        mon.write(i)", "except:", "    nt = 0"],
     ["lst = [pot.read(), pot.read()]", "mon.write(lst[0] - lst[1])"],
 ]
 
@@ -205,6 +217,17 @@ def gen_ultra(tier: str) -> Iterator[dict]:
                     yield {"id": f"U:{idx}", "space": "U", "src": US_SRC, "runs": chunk, "meta": {}}
                     idx += 1
                     chunk = []
+    # longer histories over {good echo, three time-outs}: the last good reading is reused for every failed call after it
+    for d in (3, 4, 5):
+        for hist in itertools.product([(0, 1000), (1, 1000), (9, 1000), (9, 0)], repeat=d):
+            pulses = []
+            for p, _ in hist:
+                pulses += list(ECHO_PATTERNS[p])
+            chunk.append({"passes": d, "t0": 0, "pulse": pulses + [0, 0, 0], "adv": [a for _, a in hist], "hist": [list(h) for h in hist]})
+            if len(chunk) >= 600:
+                yield {"id": f"U:{idx}", "space": "U", "src": US_SRC, "runs": chunk, "meta": {}}
+                idx += 1
+                chunk = []
     # the millisecond counter is close to the top of its range / rolls over between two calls
     small = [(p, a) for p in (0, 3, 9) for a in (0, 1, 59, 61)]
     for hist in itertools.product(small, repeat=2):
